@@ -116,6 +116,7 @@ def parseOp (s : S) (line : String) : Option (Op Rat) :=
     let x ← if x == "-" then some none else (parseNum x).map some
     some (.backwards (← parseRef a) c x)
   | ["setbasis", a, b] => do some (.setBasis (← parseRef a) (← parseBArg b))
+  | ["yield", a, c, y, b] => do some (.setYield (← parseRef a) (← c.toNat?) (← parseNum y) (← parseBArg b))
   | ["setx", a, x] => do some (.setX (← parseRef a) (← parseNum x))
   | ["mkset", ms] => do some (.mkSet false (← (splitComma ms).mapM parseRef))
   | ["mkseries", ms] => do some (.mkSet true (← (splitComma ms).mapM parseRef))
